@@ -1272,3 +1272,207 @@ Proof.
   { unfold transport6_ok. exact Hwf_udp. }
   split; [exact W|]. split; [exact V|exact Hview].
 Qed.
+
+(* ====================================================================== ICMP echo replies *)
+(* ICMPv4: sendPing4 gets the request minus its first four bytes (identifier, sequence number,
+   data) and answers type 0 with the same bytes *)
+Definition icmp4_ck (code : Z) (data : list Z) : Z := lnot16 (oc_norm (ws ([0; w8 code; 0; 0] ++ data))).
+
+Lemma send_ping4_flat code i0 i1 rest :
+  bytes_ok (i0 :: i1 :: rest) -> Z.of_nat (length rest) <= 65535 ->
+  let data := i0 :: i1 :: rest in
+  let ck := icmp4_ck code data in
+  send_ping4 code data = Some ([0; w8 code; ck / 256; ck mod 256; i0; i1], rest) /\ is_u16 ck.
+Proof.
+  intros Bd Hl data ck. subst ck.
+  assert (Br : bytes_ok rest) by (inversion Bd as [|? ? ? B1]; inversion B1; assumption).
+  assert (Bi : is_byte i0 /\ is_byte i1) by (inversion Bd as [|? ? ? B1]; inversion B1; split; assumption).
+  subst data. unfold send_ping4, icmp_setType, icmp_setCode, icmp_setChecksum, put8, put16, zeros, copy_into, set_range, getFrom.
+  cbn [repeat upd obind length Nat.add Nat.leb firstn skipn app].
+  set (H0 := [w8 0; w8 code; 0; 0; i0; i1]).
+  assert (BH : bytes_ok H0) by (subst H0; destruct Bi; bytes_tac).
+  assert (Ec : checksum H0 (checksum rest 0) = oc_norm (ws ([0; w8 code; 0; 0] ++ i0 :: i1 :: rest))).
+  { rewrite (checksum_ws rest 0) by (try assumption; unfold is_u16; lia).
+    pose proof (ws_nonneg rest Br) as Hr. rewrite Z.add_0_l.
+    rewrite checksum_ws by (try assumption; try (apply oc_norm_u16; exact Hr); subst H0; cbn [length]; lia).
+    pose proof (ws_nonneg H0 BH) as Hh. rewrite oc_norm_add by assumption. f_equal.
+    cbn [app]. replace (0 :: w8 code :: 0 :: 0 :: i0 :: i1 :: rest) with (H0 ++ rest) by reflexivity.
+    rewrite ws_app_even by reflexivity. lia. }
+  rewrite Ec. fold (icmp4_ck code (i0 :: i1 :: rest)). set (ck := icmp4_ck code (i0 :: i1 :: rest)).
+  assert (Hu : is_u16 ck).
+  { subst ck. unfold icmp4_ck.
+    assert (HT : 0 <= ws ([0; w8 code; 0; 0] ++ i0 :: i1 :: rest)).
+    { apply ws_nonneg. apply Forall_app; split; [bytes_tac|exact Bd]. }
+    pose proof (oc_norm_u16 _ HT). unfold lnot16, is_u16 in *. lia. }
+  split; [|exact Hu].
+  assert (Ehl : w8 (ck / 2 ^ 8) = ck / 256 /\ w8 ck = ck mod 256).
+  { unfold w8, is_u16 in *. change (2^8) with 256. split; Z.div_mod_to_equations; lia. }
+  destruct Ehl as [-> ->]. reflexivity.
+Qed.
+
+Theorem icmp4_echo_reply_wf r data ttl c :
+  length (rLocal r) = 4%nat -> length (rRemote r) = 4%nat -> bytes_ok (rLocal r) -> bytes_ok (rRemote r) ->
+  Rfc.src4_ok (rLocal r) = true ->
+  bytes_ok data -> (4 <= length data)%nat -> Z.of_nat (length data) <= 65511 -> 1 <= ttl < 256 ->
+  let L := 4 + Z.of_nat (length data) in
+  exists hdr pl frame,
+    send_ping4 0 data = Some (hdr, pl) /\
+    ipv4_write r hdr [pl] 1 ttl c = Some (frame, bucket_after (20 + L) c) /\
+    Rfc.wf_ipv4 false frame = true /\
+    Rfc.view_ip4 frame = Rfc.mkIV (rLocal r) (rRemote r) 1 ttl (id_of (20 + L) c) (hdr ++ pl) /\
+    Rfc.b8 (hdr ++ pl) 0 = 0 /\ Rfc.b8 (hdr ++ pl) 1 = 0 /\ skipn 4 (hdr ++ pl) = data.
+Proof.
+  intros Ls Ld Bs Bd Hsrc Bdata Hl4 Hl Httl L.
+  destruct data as [|i0 [|i1 rest]]; try (cbn [length] in Hl4; lia).
+  destruct (send_ping4_flat 0 i0 i1 rest Bdata ltac:(cbn [length] in Hl; lia)) as [Hsend Hu].
+  cbv zeta in Hsend, Hu. set (ck := icmp4_ck 0 (i0 :: i1 :: rest)) in *.
+  change (w8 0) with 0 in Hsend.
+  set (hdr := [0; 0; ck / 256; ck mod 256; i0; i1]) in *.
+  assert (ELen : w16 (20 + Z.of_nat (length hdr) + vsize [rest]) = 20 + L).
+  { subst hdr L. unfold vsize. cbn [concat length] in *. rewrite app_nil_r. unfold w16. change (2^16) with 65536.
+    rewrite Z.mod_small; lia. }
+  destruct (ipv4_write_flat r hdr [rest] 1 ttl c Ls Ld Bs Bd) as (ckip & Hw & Huip & Hsumip).
+  rewrite ELen in Hw, Hsumip. change (w8 1) with 1 in Hw, Hsumip. cbn [concat] in Hw. rewrite app_nil_r in Hw.
+  exists hdr, rest, (ip4_hdr (20 + L) (w16 (fst (ipv4_next_id (20 + L) c))) ttl 1 ckip (rLocal r) (rRemote r) ++ hdr ++ rest).
+  split; [exact Hsend|]. split; [exact Hw|].
+  assert (Ezl : Rfc.zlen (hdr ++ rest) = L) by (subst hdr L; unfold Rfc.zlen; cbn [app length]; lia).
+  assert (Br : bytes_ok rest) by (inversion Bdata as [|? ? ? B1]; inversion B1; assumption).
+  assert (Hicmp : Rfc.wf_icmp4 (hdr ++ rest) = true).
+  { unfold Rfc.wf_icmp4. rewrite Ezl.
+    assert (Hs : Rfc.sums_to_ffff (hdr ++ rest) = true).
+    { unfold Rfc.sums_to_ffff. apply Z.eqb_eq. subst hdr ck. unfold icmp4_ck. change (w8 0) with 0.
+      pose proof (verify_general [] [0; 0] (i0 :: i1 :: rest)
+                    (ws ([0; 0; 0; 0] ++ i0 :: i1 :: rest))) as V.
+      cbn [app] in V |- *. apply V; try reflexivity; try assumption; try bytes_tac.
+      all: try (unfold ws at 1; cbn [be_words zsum fold_right]; lia). }
+    rewrite Hs. change (Rfc.b8 (hdr ++ rest) 0) with 0. change (Rfc.b8 (hdr ++ rest) 1) with 0.
+    cbn [Z.eqb orb]. cbv zeta. destruct (Z.leb_spec 8 L); [reflexivity|subst L; cbn [length] in *; lia]. }
+  destruct (wf_ipv4_hdr false (20 + L) (w16 (fst (ipv4_next_id (20 + L) c))) ttl 1 ckip (rLocal r) (rRemote r)
+              (hdr ++ rest) Ls Ld Hsrc ltac:(rewrite Ezl; reflexivity) ltac:(subst L; lia)
+              (w16_range _) Httl ltac:(lia) Huip Hsumip) as [W V].
+  { unfold transport4_ok. exact Hicmp. }
+  split; [exact W|]. split; [exact V|]. repeat split; reflexivity.
+Qed.
+
+(* ---------- ICMPv6 ---------- *)
+Lemma checksum_fold_ws0 bs :
+  Forall bytes_ok bs -> Forall (fun b => Z.of_nat (length b) <= 131072) bs ->
+  fold_left (fun acc b => checksum b acc) bs 0 = oc_norm (sum_ws bs).
+Proof.
+  intros Hb Hl. pose proof (checksum_fold_ws bs 0 Hb Hl ltac:(lia)) as F.
+  change (oc_norm 0) with 0 in F. rewrite Z.add_0_l in F. exact F.
+Qed.
+
+(* icmpChecksum: addresses, 32-bit upper-layer length, 3 zero bytes + next header, payload views,
+   then the header with its checksum field zeroed *)
+Lemma icmp6_chain src dst LL K vv h0 :
+  bytes_ok src -> bytes_ok dst -> bytes_ok LL -> bytes_ok K -> Forall bytes_ok vv -> bytes_ok h0 ->
+  Z.of_nat (length src) <= 131072 -> Z.of_nat (length dst) <= 131072 -> Z.of_nat (length LL) <= 131072 ->
+  Z.of_nat (length K) <= 131072 -> Forall (fun b => Z.of_nat (length b) <= 131072) vv -> Z.of_nat (length h0) <= 131072 ->
+  checksum h0 (checksum_chunks vv (checksum K (checksum LL (checksum dst (checksum src 0))))) =
+  oc_norm (ws src + ws dst + ws LL + ws K + sum_ws vv + ws h0).
+Proof.
+  intros Bs Bd BL BK Bv Bh Ls Ld LLl LK Lv Lh.
+  pose proof (checksum_fold_ws0 ([src; dst; LL; K] ++ vv ++ [h0])) as F.
+  rewrite !fold_left_app in F. cbn [fold_left] in F. unfold checksum_chunks. rewrite F.
+  - f_equal. rewrite !sum_ws_app. cbn [sum_ws fold_right]. lia.
+  - apply Forall_app; split; [|apply Forall_app; split];
+      [repeat (apply Forall_cons; [assumption|]); apply Forall_nil|assumption|
+       repeat (apply Forall_cons; [assumption|]); apply Forall_nil].
+  - apply Forall_app; split; [|apply Forall_app; split];
+      [repeat (apply Forall_cons; [assumption|]); apply Forall_nil|assumption|
+       repeat (apply Forall_cons; [assumption|]); apply Forall_nil].
+Qed.
+
+Lemma ws_be32_small L : 0 <= L < 65536 -> ws (be32 (w32 L)) = L.
+Proof.
+  intros H. assert (E : w32 L = L) by (unfold w32; change (2^32) with 4294967296; apply Z.mod_small; lia).
+  rewrite E. unfold be32. rewrite ws4. unfold w8. change (2^8) with 256. change (2^16) with 65536. change (2^24) with 16777216.
+  Z.div_mod_to_equations. lia.
+Qed.
+
+(* the echo reply: the first 8 bytes of the request with type 129 and a fresh checksum *)
+Lemma icmp6_echo_reply_flat r t cd x2 x3 i0 i1 q0 q1 more vv :
+  bytes_ok (rLocal r) -> bytes_ok (rRemote r) -> (length (rLocal r) <= 16)%nat -> (length (rRemote r) <= 16)%nat ->
+  is_byte cd -> is_byte i0 -> is_byte i1 -> is_byte q0 -> is_byte q1 ->
+  Forall bytes_ok vv -> nonfinal_even vv -> 8 + vsize vv <= 65535 ->
+  let h := t :: cd :: x2 :: x3 :: i0 :: i1 :: q0 :: q1 :: more in
+  let L := 8 + vsize vv in
+  let ck := xsum_of (rLocal r) (rRemote r) 58 L ([129; cd; 0; 0; i0; i1; q0; q1] ++ concat vv) in
+  icmp6_echo_reply r h vv = Some [129; cd; ck / 256; ck mod 256; i0; i1; q0; q1] /\ is_u16 ck.
+Proof.
+  intros Bs Bd Ls Ld Hcd Hi0 Hi1 Hq0 Hq1 Bv Hev Hsz h L ck. subst h.
+  assert (Hvs : 0 <= vsize vv) by (unfold vsize; lia).
+  unfold icmp6_echo_reply, icmp_setType, icmp_setChecksum, copy_into, set_range, zeros, put8, put16.
+  cbn [repeat length Nat.add Nat.leb firstn skipn app upd obind].
+  change (w8 129) with 129.
+  unfold icmp6_checksum, put8. cbn [length upd obind]. change (w8 0) with 0.
+  set (h0 := [129; cd; 0; 0; i0; i1; q0; q1]).
+  assert (Bh : bytes_ok h0) by (subst h0; bytes_tac).
+  assert (EL : Z.of_nat 8 + vsize vv = L) by (subst L; lia). rewrite EL.
+  assert (BLL : bytes_ok (be32 (w32 L))) by apply be32_ok.
+  assert (BK : bytes_ok [0; 0; 0; 58]) by bytes_tac.
+  rewrite icmp6_chain; try assumption; try (cbn [length]; lia); try lia; try (apply data_lens; lia); try (subst h0; cbn [length]; lia); try (unfold be32; cbn [length]; lia).
+  rewrite sum_ws_concat by exact Hev. rewrite ws_be32_small by (subst L; lia). rewrite ws4.
+  assert (EH : ws (h0 ++ concat vv) = ws h0 + ws (concat vv)) by (apply ws_app_even; reflexivity).
+  assert (Eck : lnot16 (oc_norm (ws (rLocal r) + ws (rRemote r) + L + (0 * 256 + 0 + (0 * 256 + 58)) + ws (concat vv) + ws h0)) = ck).
+  { subst ck. unfold xsum_of. fold h0. rewrite EH. f_equal. f_equal. lia. }
+  rewrite Eck.
+  assert (Hu : is_u16 ck).
+  { subst ck. unfold xsum_of. fold h0.
+    match goal with |- is_u16 (lnot16 (oc_norm ?x)) => assert (HT : 0 <= x) end.
+    { pose proof (ws_nonneg _ Bs). pose proof (ws_nonneg _ Bd). rewrite EH.
+      pose proof (ws_nonneg _ Bh). pose proof (ws_nonneg (concat vv) (Forall_concat _ _ Bv)). subst L. lia. }
+    pose proof (oc_norm_u16 _ HT). unfold lnot16, is_u16 in *. lia. }
+  split; [|exact Hu].
+  assert (Ehl : w8 (ck / 2 ^ 8) = ck / 256 /\ w8 ck = ck mod 256).
+  { unfold w8, is_u16 in *. change (2^8) with 256. split; Z.div_mod_to_equations; lia. }
+  destruct Ehl as [-> ->]. reflexivity.
+Qed.
+
+(* an echo request (type 128, code 0) is answered with a well-formed echo reply carrying the same
+   identifier, sequence number and data; [h] is the first view of the request (>= 8 bytes, only its
+   first 8 are used), [vv] the views after TrimFront(8) *)
+Theorem icmp6_echo_reply_wf r x2 x3 i0 i1 q0 q1 more vv ttl :
+  length (rLocal r) = 16%nat -> length (rRemote r) = 16%nat -> bytes_ok (rLocal r) -> bytes_ok (rRemote r) ->
+  nth 0 (rLocal r) 0 <> 255 ->
+  is_byte i0 -> is_byte i1 -> is_byte q0 -> is_byte q1 ->
+  Forall bytes_ok vv -> nonfinal_even vv -> 8 + vsize vv <= 65535 -> 1 <= ttl < 256 ->
+  let h := 128 :: 0 :: x2 :: x3 :: i0 :: i1 :: q0 :: q1 :: more in
+  exists pkt frame,
+    icmp6_echo_reply r h vv = Some pkt /\
+    ipv6_write r pkt vv 58 ttl = Some frame /\
+    Rfc.wf_ipv6 false frame = true /\
+    Rfc.view_ip6 frame = Rfc.mkIV (rLocal r) (rRemote r) 58 ttl 0 (pkt ++ concat vv) /\
+    Rfc.b8 pkt 0 = 129 /\ Rfc.b8 pkt 1 = 0 /\ skipn 4 (pkt ++ concat vv) = [i0; i1; q0; q1] ++ concat vv.
+Proof.
+  intros Ls Ld Bs Bd Hsrc Hi0 Hi1 Hq0 Hq1 Bv Hev Hsz Httl h.
+  assert (Hvs : 0 <= vsize vv) by (unfold vsize; lia).
+  destruct (icmp6_echo_reply_flat r 128 0 x2 x3 i0 i1 q0 q1 more vv Bs Bd ltac:(lia) ltac:(lia)
+              ltac:(unfold is_byte; lia) Hi0 Hi1 Hq0 Hq1 Bv Hev Hsz) as [Hrep Hu].
+  cbv zeta in Hrep, Hu. set (L := 8 + vsize vv) in *.
+  set (ck := xsum_of (rLocal r) (rRemote r) 58 L ([129; 0; 0; 0; i0; i1; q0; q1] ++ concat vv)) in *.
+  set (pkt := [129; 0; ck / 256; ck mod 256; i0; i1; q0; q1]) in *.
+  assert (ELen : w16 (Z.of_nat (length pkt) + vsize vv) = L).
+  { subst pkt L. cbn [length]. unfold w16. change (2^16) with 65536. rewrite Z.mod_small; lia. }
+  pose proof (ipv6_write_flat r pkt vv 58 ttl Ls Ld) as Hw. cbv zeta in Hw. rewrite ELen in Hw. change (w8 58) with 58 in Hw.
+  exists pkt, (ip6_hdr L 58 ttl (rLocal r) (rRemote r) ++ pkt ++ concat vv).
+  split; [exact Hrep|]. split; [exact Hw|].
+  assert (Ezl : Rfc.zlen (pkt ++ concat vv) = L) by (subst pkt L; unfold Rfc.zlen, vsize; rewrite app_length; cbn [length]; lia).
+  assert (Bdc : bytes_ok (concat vv)) by (apply Forall_concat, Bv).
+  assert (Hicmp : Rfc.wf_icmp6 ttl (rLocal r) (rRemote r) (pkt ++ concat vv) = true).
+  { unfold Rfc.wf_icmp6. rewrite Ezl.
+    assert (Hs : Rfc.sums_to_ffff (Rfc.pseudo6 (rLocal r) (rRemote r) 58 L ++ pkt ++ concat vv) = true).
+    { subst pkt ck.
+      change ([129; 0; ?a; ?b; i0; i1; q0; q1] ++ concat vv) with ([129; 0] ++ a :: b :: ([i0; i1; q0; q1] ++ concat vv)).
+      change ([129; 0; 0; 0; i0; i1; q0; q1] ++ concat vv) with ([129; 0] ++ 0 :: 0 :: ([i0; i1; q0; q1] ++ concat vv)).
+      apply xsum_verifies6; try assumption; try lia; try (subst L; lia); try reflexivity; try bytes_tac;
+        try (apply Forall_app; split; [bytes_tac|assumption]). }
+    rewrite Hs. change (Rfc.b8 (pkt ++ concat vv) 0) with 129. change (Rfc.b8 (pkt ++ concat vv) 1) with 0.
+    cbn [Z.eqb orb andb]. cbv zeta.
+    destruct (Z.leb_spec 4 L); [|subst L; lia]. destruct (Z.leb_spec 8 L); [|subst L; lia]. reflexivity. }
+  destruct (wf_ipv6_hdr false L 58 ttl (rLocal r) (rRemote r) (pkt ++ concat vv) Ls Ld Hsrc
+              ltac:(rewrite Ezl; reflexivity) ltac:(subst L; lia) Httl ltac:(lia)) as [W V].
+  { unfold transport6_ok. exact Hicmp. }
+  split; [exact W|]. split; [exact V|]. repeat split; reflexivity.
+Qed.
